@@ -22,10 +22,11 @@ for id in sorted(conf):
         run=r['check_run']
         if r['violations']>0:
             out="DETECTED (%d obligations)"%r['violations']; o=r['obligations'][0]; first="`%s` [%s]"%(o['name'][:90],o['status'])
+            if r.get('note'): out+=" ("+r['note']+")"
         else:
             out="not detected"; first=""
         if run!=prop: out+=" — %s is not claimed"%prop
-        if r.get('note'): out+=" ("+r['note']+")"
+        if r.get('note') and r['violations']==0: out+=" ("+r['note']+")"
     lines.append(f"| {id} | {prop} | {c['status']} | {run} | {out} | {first} |")
     mp=f'{S}/{id}/meta.json'
     try: m=json.load(open(mp))
